@@ -9,6 +9,9 @@ Suites
                Oracle: the same command line with `--seed` from two different initial generator states gives the same text.
   phasetrace : the generator events of a real run of cnfgen / pbgen / cnfshuffle (parse window, random.seed calls with their
                argument, blocks of draws) against the trace the phase table regenerated from the source predicts.
+  seededgraph: the six graph generators of cnfgen/graphs.py with a `seed` parameter against their model
+               (`Rand/Seeded.lean`: random.seed(seed) first, then the sampler), recorded draws replayed; oracle: same seed,
+               another generator state, same graph.
   seededlib  : the library generators with a `seed` parameter found by the translator are exactly the ones this module
                knows how to call; each is called twice with the same seed from different generator states (oracle).
 """
@@ -113,10 +116,11 @@ class Recording:
         for i, x in enumerate(population):
             pos.setdefault(x if not isinstance(x, list) else tuple(x), i)
         idx = [pos[x if not isinstance(x, list) else tuple(x)] for x in res]
-        if isinstance(population, range) or all(isinstance(x, int) for x in res):
+        first = population[0] if n else None
+        if isinstance(population, range) or isinstance(first, int):
             genc = [0] + enc_list(res)
         elif all(isinstance(x, tuple) and len(x) == 2 for x in res):
-            genc = [1] + enc_pairs(res)
+            genc = [1] + enc_pairs(res)        # lists of edges (an empty list of edges included)
         else:
             genc = None
         self._add(genc, [0, n, k] + enc_list(idx))
@@ -612,7 +616,166 @@ def seededlib_case():
     return Case("seededlib", req("c07_seeded"), lambda: ok(" ".join(sorted(SEEDED))), oracle, cls="seededlib", info={})
 
 
+# ------------------------------------------------------------------ seeded graph generators against their model
+def _bip(l, r, edges):
+    B = graphs.BipartiteGraph(l, r)
+    for u, v in edges:
+        B.add_edge(u, v)
+    return B
+
+
+def _simple(n, edges):
+    G = graphs.Graph(n)
+    for u, v in edges:
+        G.add_edge(u, v)
+    return G
+
+
+def _fmt_pairs(ps):
+    ps = list(ps)
+    out = [str(len(ps))]
+    for a, b in ps:
+        out += [str(a), str(b)]
+    return " ".join(out)
+
+
+def _fmt_simple(G):
+    return "S {} {} {} {}".format(G.number_of_vertices(), G.number_of_edges(), _fmt_pairs(G.edges()), _fmt_pairs(sorted(G.edgeset)))
+
+
+def _fmt_bip(G):
+    byright = [(u, v) for v in range(1, G.right_order() + 1) for u in G.left_neighbors(v)]
+    return "B {} {} {} {} {}".format(G.left_order(), G.right_order(), G.number_of_edges(), _fmt_pairs(G.edges()), _fmt_pairs(byright))
+
+
+def seededgraph_case(which, params, seed, pre_state):
+    """which/params as in the driver request; seed None or int"""
+    info = {"which": which, "params": params, "seed": seed, "pre": pre_state}
+    state = {}
+
+    def call():
+        if which == 0:
+            return _fmt_bip(graphs.bipartite_random_left_regular(*params, seed=seed))
+        if which == 1:
+            return _fmt_bip(graphs.bipartite_random_m_edges(*params, seed=seed))
+        if which == 2:
+            l, r, p = params
+            return _fmt_bip(graphs.bipartite_random(l, r, p, seed=seed))
+        if which == 3:
+            return _fmt_bip(graphs.bipartite_random_regular(*params, seed=seed))
+        if which == 4:
+            n, edges, m = params
+            G = _simple(n, edges)
+            graphs.add_random_missing_edges(G, m, seed=seed)
+            return _fmt_simple(G)
+        if which == 5:
+            l, r, edges, m = params
+            G = _bip(l, r, edges)
+            graphs.add_random_missing_edges(G, m, seed=seed)
+            return _fmt_bip(G)
+        n, edges, k = params
+        G = _simple(n, edges)
+        graphs.split_random_edges(G, k, seed=seed)
+        return _fmt_simple(G)
+
+    def prepare():
+        if "ans" in state:
+            return
+        _mod_random.seed(pre_state)
+        with Recording() as rec:
+            rec.in_parse = 1          # graph vocabulary
+            try:
+                ans = ok(call() + " R 0")
+            except Exception as e:  # noqa
+                ans = common.exc_name(e)
+        r0, rs, seeds, bad = split_streams(rec.events)
+        state.update(ans=ans, r0=r0, rs=rs, seeds=seeds, bad=bad, unknown=list(rec.unknown))
+
+    def enc_params():
+        if which in (0, 1):
+            return list(params)
+        if which == 2:
+            l, r, p = params
+            fr = Fraction(float(p))
+            return [l, r, fr.numerator, fr.denominator]
+        if which == 3:
+            return list(params) + [40]
+        if which in (4, 6):
+            n, edges, m = params
+            return [n] + enc_pairs(edges) + [m]
+        l, r, edges, m = params
+        return [l, r] + enc_pairs(edges) + [m]
+
+    class C(Case):
+        __slots__ = ()
+
+        @property
+        def req(self):
+            prepare()
+            return req("seededgraph", which, seed is not None, seed if seed is not None else 0, enc_params(),
+                       enc_stream(state["r0"]["g"]), enc_stream(state["rs"]["g"]))
+
+        @req.setter
+        def req(self, v):
+            pass
+
+    def impl():
+        prepare()
+        return state["ans"]
+
+    def oracle():
+        prepare()
+        if state["bad"] or state["unknown"]:
+            return {"seededgraph": info, "recording": state["bad"] or state["unknown"][:3]}
+        if seed is None or state["ans"].startswith("ERR"):
+            return None
+        # library half of the property: the same seed from another generator state gives the same graph
+        _mod_random.seed(pre_state + 17)
+        _mod_random.random()
+        try:
+            again = ok(call() + " R 0")
+        except Exception as e:  # noqa
+            again = common.exc_name(e)
+        if again != state["ans"]:
+            return {"seededgraph": info, "same_seed_different_graphs": True}
+        return None
+    names = ["bipartite_random_left_regular", "bipartite_random_m_edges", "bipartite_random", "bipartite_random_regular",
+             "add_random_missing_edges", "add_random_missing_edges_bip", "split_random_edges"]
+    c = C("seededgraph", "", impl, oracle, cls=names[which] + (":seed" if seed is not None else ":noseed"), info=info)
+    c.stateless = False
+    return c
+
+
+def seededgraph_cases(ctx):
+    rng = common.sub_rng(ctx["seed"], "C07_run", "seededgraph")
+    path5 = [(1, 2), (2, 3), (3, 4), (4, 5)]
+    cyc6 = [(1, 2), (2, 3), (3, 4), (4, 5), (5, 6), (1, 6)]
+    table = [
+        (0, [4, 5, 2]), (0, [3, 3, 3]), (0, [2, 3, 4]), (0, [0, 3, 0]), (0, [3, 4, 0]),
+        (1, [4, 4, 9]), (1, [3, 3, 2]), (1, [2, 3, 7]), (1, [3, 3, 0]), (1, [3, 3, 9]),
+        (2, [4, 4, .5]), (2, [3, 2, 0.0]), (2, [2, 3, 1.0]), (2, [3, 3, .25]), (2, [2, 2, 1.5]),
+        (3, [4, 4, 2]), (3, [3, 6, 2]), (3, [4, 2, 1]), (3, [3, 3, 3]), (3, [2, 3, 2]), (3, [3, 0, 0]),
+        (4, [6, cyc6, 4]), (4, [5, path5, 6]), (4, [5, path5, 7]), (4, [4, [], 0]), (4, [4, [], 6]), (4, [3, [(1, 2)], -1]),
+        (5, [3, 3, [(1, 1), (2, 2)], 3]), (5, [2, 2, [], 4]), (5, [2, 2, [(1, 1)], 4]), (5, [3, 2, [(1, 2)], 0]),
+        (6, [6, cyc6, 3]), (6, [5, path5, 4]), (6, [5, path5, 5]), (6, [4, [], 0]), (6, [3, [(1, 2)], 1]),
+    ]
+    if ctx["tier"] == "thorough":
+        for _ in range(30):
+            w = rng.randint(0, 3)
+            l, r = rng.randint(1, 6), rng.randint(1, 6)
+            table.append((w, [l, r, rng.randint(0, l * r)] if w == 1 else [l, r, rng.choice([.1, .5, .9])] if w == 2
+                          else [l, r, rng.randint(0, r + 1)]))
+    out = []
+    for i, (w, params) in enumerate(table):
+        seeds = [None, 0, rng.randint(1, 10 ** 9)] if ctx["tier"] == "thorough" else [None, (0, rng.randint(1, 10 ** 9), -5)[i % 3]]
+        for sd in seeds:
+            out.append(seededgraph_case(w, params, sd, 1000 + i))
+    return out
+
+
 def build(suite, info):
+    if suite == "seededgraph":
+        return seededgraph_case(info["which"], info["params"], info["seed"], info["pre"])
     if suite == "clirun":
         return RunCase(info["argv"], cls="replay")
     if suite == "phasetrace":
@@ -624,6 +787,7 @@ def build(suite, info):
 
 def cases(ctx):
     out = [seededlib_case()]
+    out += seededgraph_cases(ctx)
     out += phasetrace_cases(ctx)
     out += clirun_cases(ctx)
     return out
